@@ -421,7 +421,33 @@ def t_failing_member(rng, site=None, when=None):
                 site=site, when=when)
 
 
-CONFLUENT = [t_await_tree, t_await_chain, t_pipeline, t_fan_out, t_request_reply, t_late_await]
+def t_await_then_spawn(rng):
+    """Await a process that is still working when the await is issued, then spawn again and await
+    that too (confluent). A stale empty UpdateAwaitResults reaching the awaiter while it waits for
+    its spawn notification is finding F16."""
+    n = rng.randint(1, 3)
+    src = "a = @#{ !#'int },\n5 a,\n!a =x0,\n"
+    for i in range(1, n + 1):
+        src += "b%d = @#{ %s },\n!b%d =x%d,\n" % (i, rng.choice(["%d" % (i + 1), "!#'int"]), i, i) if False else ""
+    parts = ["x0"]
+    for i in range(1, n + 1):
+        waits = rng.random() < 0.5
+        src += "b%d = @#{ %s },\n" % (i, "!#'int" if waits else str(i + 1))
+        if waits:
+            src += "%d b%d,\n" % (i + 10, i)
+        src += "!b%d =x%d,\n" % (i, i)
+        parts.append("x%d" % i)
+    src += "[" + ", ".join(parts) + "]"
+    return dict(name="await_then_spawn", src=src, confluent=True, size=dict(n=n), nprocs=n + 2)
+
+
+def f16_shape(s):
+    """NARROW match for F16: no internal error, but some process failed with StackUnderflow (the
+    re-executed Spawn/…), which no generated program can produce by itself."""
+    return s.ok and not s.panics and not s.errs and "(err StackUnderflow" in s.line
+
+
+CONFLUENT = [t_await_tree, t_await_chain, t_pipeline, t_fan_out, t_request_reply, t_late_await, t_await_then_spawn]
 MESSAGE_SCENARIOS = [t_fan_in, t_fan_out, t_pipeline, t_request_reply, t_await_chain, t_late_await, t_select_mix]
 
 
@@ -452,22 +478,48 @@ def ddmin(items, failing):
     return items
 
 
-def shrink_schedule(run_one, prog, workers, quantum, opts, schedule_actions, predicate, budget=400):
+def ddmin_batch(items, failing_many, max_rounds=80):
+    """ddmin where all candidates of a round are evaluated in one batch (one simulator process).
+    `failing_many(list of candidate lists) -> list of bool`."""
+    items = list(items)
+    n = 2
+    rounds = 0
+    while len(items) >= 2 and rounds < max_rounds:
+        rounds += 1
+        chunk = max(1, len(items) // n)
+        subsets = [items[i:i + chunk] for i in range(0, len(items), chunk)]
+        complements = [[x for j, sub in enumerate(subsets) if j != i for x in sub] for i in range(len(subsets))]
+        verdicts = failing_many(complements)
+        hit = next((k for k, v in enumerate(verdicts) if v), None)
+        if hit is not None:
+            items = complements[hit]
+            n = max(n - 1, 2)
+        else:
+            if n >= len(items):
+                break
+            n = min(len(items), n * 2)
+    return items
+
+
+def shrink_schedule(run_many, prog, workers, quantum, opts, schedule_actions, predicate):
     """Shrink an explicit schedule (list of parsed actions) keeping `predicate(Summary)` true.
-    `run_one(line) -> Summary`. The simulator completes every schedule fairly, so removing
-    actions always yields a legal schedule."""
-    calls = [0]
+    `run_many(lines) -> [Summary]`. The simulator completes every schedule fairly, so removing
+    actions always yields a legal schedule. First the shortest failing prefix (the tail of an
+    emitted schedule is usually the fair completion), then ddmin."""
+    def failing_many(cands):
+        res = run_many([case_line(prog, workers, quantum, schedule_text(c), opts) for c in cands])
+        return [s.ok and predicate(s) for s in res]
 
-    def failing(actions):
-        if calls[0] >= budget:
-            return False
-        calls[0] += 1
-        s = run_one(case_line(prog, workers, quantum, schedule_text(actions), opts))
-        return s.ok and predicate(s)
-
-    if not failing(schedule_actions):
+    if not failing_many([schedule_actions])[0]:
         return schedule_actions, False
-    return ddmin(schedule_actions, failing), True
+    n = len(schedule_actions)
+    cuts = sorted(set([0] + [n * k // 16 for k in range(1, 16)]))
+    verdicts = failing_many([schedule_actions[:c] for c in cuts])
+    for c, v in zip(cuts, verdicts):
+        if v:
+            schedule_actions = schedule_actions[:c]
+            break
+    return ddmin_batch(schedule_actions, failing_many), True
 
 
 def t_priority_await(rng):
@@ -555,3 +607,104 @@ def corpus_lines(name):
     if not os.path.exists(p):
         return []
     return [l.rstrip("\n") for l in open(p) if l.strip() and not l.startswith("#")]
+
+
+def explore(ctx, runner, scenarios, nsched, judge, route=None, opts_for=None, extra_cov=None):
+    """Generic exploration driver used by the C04 / C15 plugins.
+    scenarios: list of template dicts; judge(tp, Summary) -> list of (kind, detail);
+    route(tp, kind, Summary) -> finding key or None. One shrunk replay per (template, kind, finding)."""
+    import collections
+    rng = ctx.rng
+    lines, meta = [], []
+    for pi, tp in enumerate(scenarios):
+        opts = opts_for(tp, rng) if opts_for else ""
+        lines.append(case_line(tp["src"], 1, 1000, "", opts))
+        meta.append((pi, (1, 1000), "fair"))
+        for k in range(nsched):
+            w, q = random_cfg(rng)
+            sched = "" if rng.random() < 0.08 else random_schedule(rng, tick=tp["name"] == "select_mix")
+            opts = opts_for(tp, rng) if opts_for else ""
+            lines.append(case_line(tp["src"], w, q, sched, opts))
+            meta.append((pi, (w, q), sched))
+    for l in corpus_lines("sim_%s.txt" % ctx.pid.lower()):
+        c = sexpr.parse(l)
+        f = {x[0]: x[1:] for x in c[1:]}
+        name = f.get("template", ["corpus"])[0]
+        tp = dict(name=name, src=f["program"], confluent=False, size={"corpus": 1}, nprocs=0, corpus=True)
+        scenarios = scenarios + [tp]
+        lines.append(l)
+        meta.append((len(scenarios) - 1, (int(f["workers"][0]), int(f["quantum"][0])), "corpus"))
+    res = runner.run(lines)
+    failures = collections.OrderedDict()
+    hist_t, hist_w, hist_q = collections.Counter(), collections.Counter(), collections.Counter()
+    feature = collections.Counter()
+    nontrivial, actions, distinct = 0, 0, set()
+    for i, (s, (pi, cfg, sched)) in enumerate(zip(res, meta)):
+        tp = scenarios[pi]
+        hist_t[tp["name"]] += 1
+        hist_w[cfg[0]] += 1
+        hist_q[cfg[1]] += 1
+        for k, v in tp["size"].items():
+            if isinstance(v, str):
+                feature["%s=%s" % (k, v)] += 1
+        if s.ok:
+            actions += s.stats.get("actions", 0)
+            if s.nontrivial():
+                nontrivial += 1
+                distinct.add(hash((str(tp["src"]), cfg, sched)))
+        for kind, detail in judge(tp, s):
+            fk = route(tp, kind, s) if route else None
+            # one group per known finding (whatever its symptoms), else per (template, kind)
+            key = ("*", "known", fk) if fk else (tp["name"], kind, None)
+            failures.setdefault(key, []).append((i, detail, kind))
+    known_hits = collections.Counter()
+    for (tname, gkind, fk), hits in failures.items():
+        i, detail, kind = min(hits, key=lambda h: len(lines[h[0]]))
+        pi, cfg, sched = meta[i]
+        tp = scenarios[pi]
+        obj = shrunk_replay(runner, tp, lines[i], kind, detail, res[i], len(hits), lambda x, tp=tp: [k for k, _ in judge(tp, x)])
+        if fk:
+            known_hits[fk] += len(hits)
+            obj["finding"] = fk
+        ctx.violation(obj, finding_key=fk)
+    cov = {
+        "evaluations": len(lines), "scenarios": len(scenarios), "schedules_per_scenario": nsched,
+        "actions_executed": actions, "distinct_nontrivial": len(distinct), "nontrivial_schedules": nontrivial,
+        "rule": "a schedule is non-trivial when it contains a partial-visibility action ((w i k) with k < queued commands, (e k..) hiding a queued event) or a starvation stretch (an enabled component not scheduled for >= 3 consecutive actions); distinct by (program, configuration, schedule)",
+        "templates": dict(hist_t), "worker_counts": {str(k): v for k, v in hist_w.items()},
+        "quanta": {str(k): v for k, v in hist_q.items()}, "scenario_features": dict(feature),
+        "failing_groups": {"%s/%s%s" % (t, k, "/" + f if f else ""): len(v) for (t, k, f), v in failures.items()},
+        "known_finding_hits": dict(known_hits),
+        "samples": [lines[0], lines[1], res[1].line[:400]] if len(lines) > 1 else [],
+        "traces_validated_against_impl": 0, "disagreements_checked": sum(len(v) for v in failures.values()),
+        "obligations": 0, "discharged": 0, "checker_cmd": "none (exploration; Coq model pending)",
+    }
+    if extra_cov:
+        cov.update(extra_cov)
+    ctx.cov.update(cov)
+    return res, meta, failures
+
+
+def shrunk_replay(runner, tp, line, kind, detail, s, count, kinds_of):
+    """Confirm a failing case by re-running it, obtain its explicit schedule, shrink it."""
+    again = runner.run([line, line])
+    repro = sum(1 for a in again if kind in kinds_of(a))
+    es, actions = runner.explicit_schedule(line)
+    c = sexpr.parse(line)
+    f = {x[0]: x[1:] for x in c[1:]}
+    workers, quantum = int(f["workers"][0]), int(f["quantum"][0])
+    opts = schedule_text(f.get("opts", []))
+    shrunk, ok = actions, False
+    if es.ok and kind in kinds_of(es):
+        shrunk, ok = shrink_schedule(runner.run, f["program"], workers, quantum, opts, actions, lambda x: kind in kinds_of(x))
+    sched_text = schedule_text(shrunk) if ok else schedule_text(f.get("schedule", []))
+    replay_case = case_line(f["program"], workers, quantum, sched_text, opts)
+    final = runner.one(replay_case) if ok else s
+    return {
+        "kind": "impl-violation", "what": kind, "detail": detail, "template": tp["name"], "size": tp["size"],
+        "program": f["program"], "workers": workers, "quantum": quantum, "opts": opts,
+        "original_case": line, "cases_with_this_failure": count, "reproduced": "%d/2" % repro,
+        "schedule": sched_text, "schedule_shrunk": ok, "replay_case": replay_case,
+        "observed": (final.line if final.ok else s.line)[:3000],
+        "how_to_replay": "echo '<replay_case>' | .cache/cargo-target/debug/qv_sim --trace",
+    }
